@@ -26,7 +26,7 @@ pub const DEF: PropDef = PropDef {
 every length entry point of the library (len_*, len_*_param::<true|false>, Codes::len, ConstCode::<ID>::len for every identifier naming the \
 code, FuncCodeLen::new(code) where it exists, bit_len_vbyte/byte_len_vbyte, len_minimal_binary), (2) the value returned by the library's write, \
 (3) the growth of the stream measured from the words actually delivered to a recording backend, (4) the bit_pos growth of a library read of \
-that codeword; (2)-(4) for every invocation variant (tables on, off, default method). Parts: every value below 2^12 (quick) / 2^16 (thorough) for parameters <= 10; the boundary grid of every code and parameter; \
+that codeword; (2)-(4) for every invocation variant (tables on, off, default method). Parts: every value below 2^12 (quick) / 2^18 (thorough) for parameters <= 10; the boundary grid of every code and parameter; \
 every point where the reference length steps over the full 64-bit domain (found by an independent exponential+binary search on the reference \
 length; first 256 steps for the linearly growing Golomb/Rice/unary), each with its neighbours v-1, v, v+1. Non-trivial: value within 1 of a \
 step point, or >= 2^32, or parameter > 10; distinct = distinct (endianness, code, batch) hashes.",
@@ -196,7 +196,7 @@ fn small_param_codes(maxk: u32) -> Vec<Code> {
 
 fn run(ctx: &Ctx, env: &Env) -> Stats {
     let mut jobs: Vec<Job> = vec![];
-    let top: u64 = ctx.t(1 << 12, 1 << 16);
+    let top: u64 = ctx.t(1 << 12, 1 << 18);
     for e in En::ALL {
         for (ci, chunk) in small_param_codes(10).chunks(6).enumerate() {
             let chunk = chunk.to_vec();
